@@ -13,6 +13,7 @@ PROPS = {
     "C12": {"level": "proof", "assumptions": ["A-py", "A-log", "A-noalias"]},
     "C15": {"level": "proof", "assumptions": ["A-py", "A-log", "A-noalias", "A-regex"]},
     "C19": {"level": "proof", "assumptions": ["A-py", "A-regex"]},
+    "C09": {"level": "proof", "assumptions": ["A-py", "A-regex", "A-rank"]},
 }
 
 TECHNIQUE = "contract-based deductive verification (sidecar pre/postconditions, frames, invariants on the real source; own VC generation; z3/cvc5)"
@@ -30,6 +31,7 @@ _T = {
  "C06": ("clock rules against an (hour, minute, am/pm) spec incl. 12am/12pm", "A-regex, A-py." + BR),
  "C07": ("range rules: ends as written, ordering guards, 12h / next-day wrap, 0 < length <= 24h; auxiliary inductive invariant on date-less clock ranges", "A-dateutil, A-py." + BR),
  "C08": ("duration rules: amount and unit as written; date + N units by calendar arithmetic; N-days consistency", "A-dateutil, A-regex, A-py." + BR),
+ "C09": ("span clause only: rule wrapper and latent post-processing keep an exact span (span-covers-arguments, span-preserved)", "resolution invariance under inert context is relational through regex engine + ranking: not covered (DESIGN 6)."),
  "C20": ("gluing rules keep the date of the date part and the clock of the clock part, both orders", "A-py." + BR),
  "C12": ("frame obligations: no rule body stores into an object that existed before the call", "A-py, A-noalias; threads / hash seed / set order are not expressible as contracts (not covered)."),
  "C15": ("frame obligations of all rule bodies (a candidate does not change after it was yielded)", "A-py, A-noalias."),
